@@ -505,6 +505,14 @@ func (f *SexpFloat) SexpString(ps *PrintState) string {
 	if f.Scientific {
 		return strconv.FormatFloat(f.Val, 'e', -1, SexpFloatSize)
 	}
+	// A float at or beyond 2^63 is whole-valued; printed with 'f' it would
+	// be a run of digits that the reader takes for an integer literal and
+	// rejects as out of range. The exponent form reads back as this float.
+	if f.Val >= 9223372036854775808.0 || f.Val <= -9223372036854775808.0 {
+		if f.Val-f.Val == 0 { // finite (Inf and NaN print as before)
+			return strconv.FormatFloat(f.Val, 'e', -1, SexpFloatSize)
+		}
+	}
 	return strconv.FormatFloat(f.Val, 'f', -1, SexpFloatSize)
 }
 
